@@ -50,12 +50,13 @@ def isMatchAnd (re : Bytes → Bytes → Bool) (conds : List Cond) (ev : JTree) 
     | none => false
     | some node =>
       let value := asString node
-      let miss := (match c.regexp with
-        | some p => !re p value
-        | none => false)
-      if miss then false else
-      if !valueExists c.values value byPrefix then false else
-      isMatchAnd re cs ev byPrefix
+      match c.regexp with
+      | some p =>
+        if !re p value then false else
+        isMatchAnd re cs ev byPrefix                          -- continue
+      | none =>
+        if !valueExists c.values value byPrefix then false else
+        isMatchAnd re cs ev byPrefix
 
 /-- `processor.isMatch` without a do_if checker -/
 def isMatch (re : Bytes → Bytes → Bool) (mode : Mode) (conds : List Cond) (invert : Bool) (ev : JTree) : Bool :=
